@@ -1,114 +1,17 @@
-import CbiVerif.Lemmas.FHeadOK
 import CbiVerif.Lemmas.FPaste
 import CbiVerif.Spec.FortranNodes
 /-!
 The GROUPING of the counted lines of a Fortran file: `FileParser`'s nodes over `fortran_file_source` (`group ∘ fLoop`) against
 `Spec/FortranNodes.lean` (`refNodesAux`), line by line along the reference run — `run_eq_ref` (`Lemmas/FCPass3.lean`) gives
-the concatenation, here the simulation additionally tracks the head of the joined buffer (`HeadOK`): a continued statement
-never reads as a `#` line unless the text has a line of finding class F-C17-2 (`Spec/FortranHash.lean`).
+the concatenation; here the simulation carries the open logical line (blanks only / non-blank) and the open code group.  Since
+the repair of F-C17-2 a logical line assembled from statement lines is never a directive (`emitLL`), so no fact about the
+first character of the joined buffer is needed.
 -/
 namespace CbiVerif.Fortran
 open Tbl
 set_option linter.unusedSimpArgs false
 
-/-! ## the reference: an uncounted line does not enter a character context -/
-
-/-- reference modes outside a character context -/
-def topish : RF → Bool
-  | .code | .start .top | .ampTop _ => true
-  | .bang s | .sent s | .comm s => s == .code || s == .cont || s == .amp
-  | _ => false
-
-def stepTopOK (m : RF) (c : Cls) : Bool :=
-  match rstep m c with
-  | none => true
-  | some o => !topish m || topish o.mode || o.vis
-
-theorem stepTopOK_all : (allRF.all fun m => allC.all fun c => stepTopOK m c) = true := by decide
-
-def endTopOK (m : RF) : Bool :=
-  match rend m with
-  | none => true
-  | some m' => !topish m || m' == .code || m' == .start .top
-
-theorem endTopOK_all : (allRF.all endTopOK) = true := by decide
-
-theorem rchars_topish (l : List Char) : ∀ (a x : RAcc), (topish a.mode = true ∨ a.vis = true) →
-    rchars a l = some x → (topish x.mode = true ∨ x.vis = true) := by
-  induction l with
-  | nil => intro a x h hr; simp only [rchars, Option.some.injEq] at hr; subst hr; exact h
-  | cons c cs ih =>
-    intro a x h hr
-    simp only [rchars] at hr
-    split at hr
-    · cases hr
-    · cases ho : rstep a.mode (cls c) with
-      | none => simp [ho] at hr
-      | some o =>
-        simp only [ho] at hr
-        refine ih _ x ?_ hr
-        simp only
-        rcases h with h | h
-        · have hall := stepTopOK_all
-          simp only [List.all_eq_true] at hall
-          have h1 := hall a.mode (mem_allRF _) (cls c) (mem_allC _)
-          simp only [stepTopOK, ho, h, Bool.not_true, Bool.false_or, Bool.or_eq_true] at h1
-          rcases h1 with h1 | h1
-          · exact Or.inl h1
-          · right; simp [h1]
-        · right; simp [h]
-
-/-- a line scanned from a mode outside a character context that is not counted ends outside a character context -/
-theorem unc_topish (m : RF) (l : List Char) (rl : RLine) (hm : m = .code ∨ m = .start .top)
-    (h : rline m l = some rl) (hc : rl.counted = false) : rl.next = .code ∨ rl.next = .start .top := by
-  unfold rline at h
-  cases hr : rchars ⟨m, false, false⟩ l with
-  | none => simp [hr] at h
-  | some a =>
-    simp only [hr] at h
-    cases he : rend a.mode with
-    | none => simp [he] at h
-    | some m2 =>
-      simp only [he, Option.some.injEq] at h
-      subst h
-      simp only [Bool.or_eq_false_iff] at hc
-      have ht : topish m = true := by rcases hm with hm | hm <;> subst hm <;> rfl
-      have h1 := rchars_topish l ⟨m, false, false⟩ a (Or.inl ht) hr
-      have h2 : topish a.mode = true := by
-        rcases h1 with h1 | h1
-        · exact h1
-        · rw [hc.1] at h1; cases h1
-      have hall := endTopOK_all
-      simp only [List.all_eq_true] at hall
-      have h3 := hall a.mode (mem_allRF _)
-      simp only [endTopOK, he, h2, Bool.not_true, Bool.false_or, Bool.or_eq_true, beq_iff_eq] at h3
-      exact h3
-
 /-! ## shape of the cleaner state at a line start -/
-
-theorem rlF_code_shape (s : FSt) (h : RlF s .code) : ∃ fd, s = ⟨[.top], .run, [], fd⟩ := by
-  obtain ⟨st, sc, vc, fd⟩ := s
-  have h2 := h.2
-  unfold Tbl.Rl Tbl.proj at h2
-  simp only [Tbl.absSt, absF, Prod.mk.injEq] at h2
-  obtain ⟨e1, e2, _⟩ := h2
-  subst e1; subst e2
-  have := h.1.vcEmpty (by simp)
-  simp only at this
-  subst this
-  exact ⟨fd, rfl⟩
-
-theorem rlF_start_top_shape (s : FSt) (h : RlF s (.start .top)) : ∃ fd, s = ⟨[.cfs, .top], .run, [], fd⟩ := by
-  obtain ⟨st, sc, vc, fd⟩ := s
-  have h2 := h.2
-  unfold Tbl.Rl Tbl.proj at h2
-  simp only [Tbl.absSt, Tbl.ctxStack, absF, Prod.mk.injEq] at h2
-  obtain ⟨e1, e2, _⟩ := h2
-  subst e1; subst e2
-  have := h.1.vcEmpty (by simp)
-  simp only at this
-  subst this
-  exact ⟨fd, rfl⟩
 
 /-- `cleaner.state[-1] == "CONTINUING_FROM_SOL"` iff the reference is inside a continued statement -/
 theorem rlF_head_cfs (s : FSt) (m : RF) (h : RlF s m) (hm : isLineStart m = true) :
@@ -123,7 +26,7 @@ theorem rlF_head_cfs (s : FSt) (m : RF) (h : RlF s m) (hm : isLineStart m = true
   | start c => simp [Tbl.absSt]
   | _ => simp [isLineStart] at hm
 
-/-! ## one line: the buffer is blanks only or starts with a good character -/
+/-! ## one line: the buffer is blanks only or non-blank -/
 
 /-- outside F-C17-1: an uncounted line leaves only merged blanks in the buffer, a counted one a non-blank buffer -/
 theorem line_sim_only (s : FSt) (m : RF) (l : List Char) (r : RLine) (hR : RlF s m) (h : rline m l = some r)
@@ -150,84 +53,6 @@ theorem line_sim_only (s : FSt) (m : RF) (l : List Char) (r : RLine) (hR : RlF s
         rw [hc] at hls
         simpa using hls
 
-/-- a line that can open the text of a statement: scanned at top level (not a directive line) or as a continuation line
-    outside a character context whose text does not start with `#` -/
-theorem line_head (s : FSt) (m : RF) (l : List Char) (r : RLine) (hR : RlF s m) (h : rline m l = some r)
-    (hk : r.k = false) (hd : m = .code → isDirectiveLine l = false)
-    (hc : m = .start .top → contHead l ≠ some '#') (hm : m = .code ∨ m = .start .top) :
-    (r.counted = false → (procLine s l).2.OnlySp) ∧ (r.counted = true → HeadOK (procLine s l).2) := by
-  obtain ⟨h1, h2⟩ := line_sim_only s m l r hR h hk
-  refine ⟨h1, fun hcnt => ?_⟩
-  have hb := h2 hcnt
-  have hor : (procLine s l).2.OnlySp ∨ HeadOK (procLine s l).2 := by
-    rcases hm with hm | hm
-    · subst hm
-      obtain ⟨fd, rfl⟩ := rlF_code_shape s hR
-      exact head_from_top l [] fd {} onlySp_empty (hd rfl)
-    · subst hm
-      obtain ⟨fd, rfl⟩ := rlF_start_top_shape s hR
-      exact head_from_cfs l [] fd {} onlySp_empty (hc rfl)
-  rcases hor with ho | ho
-  · rw [blank_of_onlySp _ ho] at hb; cases hb
-  · exact ho
-
-/-! ## blank merging does not change the head of a line -/
-
-theorem cls_space : cls ' ' = .ws := by decide
-
-theorem dropWs_collapseAux (l : List Char) : ∀ tr, dropWs (collapseAux tr l) = collapseAux false (dropWs l) := by
-  induction l with
-  | nil => intro tr; rfl
-  | cons c cs ih =>
-    intro tr
-    by_cases hc : cls c = .ws
-    · have hp := pyIsSpace_of_ws hc
-      cases tr <;> simp [collapseAux, hp, dropWs, cls_space, hc, ih]
-    · have hp := pyIsSpace_of_not_ws hc
-      simp [collapseAux, hp, dropWs, hc]
-
-theorem dropWs_head_not_ws (l : List Char) : ∀ c cs, dropWs l = c :: cs → cls c ≠ .ws := by
-  induction l with
-  | nil => intro c cs h; simp [dropWs] at h
-  | cons a as ih =>
-    intro c cs h
-    by_cases ha : cls a = .ws
-    · simp [dropWs, ha] at h; exact ih c cs h
-    · simp [dropWs, ha] at h
-      rw [← h.1]; exact ha
-
-theorem contHead_collapse (l : List Char) : contHead (collapse l) = contHead l := by
-  unfold contHead collapse
-  rw [dropWs_collapseAux]
-  rcases hd : dropWs l with _ | ⟨c, cs⟩
-  · rfl
-  · have hc := dropWs_head_not_ws l c cs hd
-    have hp := pyIsSpace_of_not_ws hc
-    simp only [collapseAux, hp, Bool.false_eq_true, if_false]
-    by_cases ha : cls c = .amp
-    · simp only [ha, beq_self_eq_true, if_true]
-      rw [dropWs_collapseAux]
-      rcases hd2 : dropWs cs with _ | ⟨d, ds⟩
-      · rfl
-      · have hc2 := dropWs_head_not_ws cs d ds hd2
-        simp [collapseAux, pyIsSpace_of_not_ws hc2]
-    · simp [ha]
-
-theorem isDirectiveLine_collapse (l : List Char) : isDirectiveLine (collapse l) = isDirectiveLine l := by
-  rw [isDirectiveLine_head, isDirectiveLine_head]
-  unfold collapse
-  rw [dropWs_collapseAux]
-  rcases hd : dropWs l with _ | ⟨c, cs⟩
-  · rfl
-  · have hc := dropWs_head_not_ws l c cs hd
-    simp [collapseAux, pyIsSpace_of_not_ws hc]
-
-theorem contHead_blank (l : List Char) (h : isBlankLine l = true) : contHead l = none := by
-  unfold isBlankLine at h
-  unfold contHead
-  simp only [beq_iff_eq] at h
-  rw [h]
-
 /-! ## `fortran_file_source` and `FileParser` on one more logical line -/
 
 theorem emitLL_onlySp (cur : OSL) (lines : List Nat) (h : cur.OnlySp) : emitLL cur lines = [] := by
@@ -236,10 +61,29 @@ theorem emitLL_onlySp (cur : OSL) (lines : List Nat) (h : cur.OnlySp) : emitLL c
   simp only [OSL.blank, beq_iff_eq] at hb
   simp [hb]
 
-theorem emitLL_headOK (cur : OSL) (lines : List Nat) (h : HeadOK cur) :
+theorem emitLL_nonblank (cur : OSL) (lines : List Nat) (h : cur.blank = false) :
     emitLL cur lines = [⟨lines, cur.parts, false⟩] := by
   unfold emitLL
-  simp [headOK_cat cur h, headOK_notdir cur h]
+  have : ¬ (category cur.parts = Cat.blank) := by
+    intro hh; simp [OSL.blank, hh] at h
+  simp [this]
+
+theorem wf_of_onlySp (b : OSL) (h : b.OnlySp) : b.WF := by
+  intro _
+  rcases h with ⟨hp, ht⟩ | ⟨hp, _⟩
+  · simp_all
+  · simp [hp]
+
+theorem onlySp_join_onlySp (a b : OSL) (ha : a.OnlySp) (hb : b.OnlySp) : (a.join b).OnlySp := by
+  unfold OSL.join
+  rcases hb with ⟨bp, bt⟩ | ⟨bp, bt⟩
+  · rw [bp]; exact ha
+  · rw [bp]
+    rcases ha with ⟨ap, at'⟩ | ⟨ap, at'⟩
+    · simp only [at', Bool.and_false, Bool.false_eq_true, if_false]
+      right; simp [ap, bt]
+    · simp only [at', beq_self_eq_true, Bool.and_self, if_true]
+      right; simp [ap, bt]
 
 theorem fLoop_dir (s : FSt) (cur : OSL) (lines : List Nat) (cl : CL) (rest : List CL) (lls : List LL)
     (hd : isDirText cl.text = true) (h : fLoop s cur lines (cl :: rest) = .ok lls) :
@@ -311,33 +155,30 @@ theorem groupAux_dir (gacc : List LL) (ls : List Nat) (t : List Char) (out : Lis
 
 /-! ## the run -/
 
-/-- what is known about the open logical line (`curr_line`, its `lines`) in front of a physical line: `p` = no line of the
-    statement has been counted yet -/
-def CurInv (m : RF) (p : Bool) (cur : OSL) (lines : List Nat) : Prop :=
-  (p = true ∧ cur.OnlySp ∧ lines = [] ∧ (m = .code ∨ m = .start .top)) ∨
-  (p = false ∧ HeadOK cur ∧ lines ≠ [] ∧ m ≠ .code)
+/-- what is known about the open logical line (`curr_line`, its `lines`) in front of a physical line -/
+def CurInv (m : RF) (cur : OSL) (lines : List Nat) : Prop :=
+  (cur.OnlySp ∧ lines = []) ∨ (cur.blank = false ∧ lines ≠ [] ∧ m ≠ .code)
 
-theorem curInv_init (m : RF) (hm : m = .code ∨ m = .start .top) : CurInv m true {} [] :=
-  Or.inl ⟨rfl, onlySp_empty, rfl, hm⟩
+theorem curInv_init (m : RF) : CurInv m {} [] := Or.inl ⟨onlySp_empty, rfl⟩
 
 /-- **main run lemma for the grouping**: physical lines `n+1 …` scanned by the reference from mode `m`; the Fortran pass over
     what the C pass makes of them, started in a related cleaner state with the open logical line `cur` / `lines`, followed by
     `FileParser`'s grouping with the open code group `gacc`, yields the groups of `refNodesAux` -/
-theorem run_groups (ls : List (List Char)) : ∀ (n : Nat) (s : FSt) (m : RF) (r : List (Bool × Bool)) (p : Bool)
+theorem run_groups (ls : List (List Char)) : ∀ (n : Nat) (s : FSt) (m : RF) (r : List (Bool × Bool))
     (cur : OSL) (lines : List Nat) (gacc lls : List LL),
     RlF s m → isLineStart m = true → (∀ l ∈ ls, LineOK l) → refLines m ls = some r → (∀ x ∈ r, x.2 = false) →
-    hashHeadAux n m p ls = [] → CurInv m p cur lines → (∀ ll ∈ gacc, ll.lines ≠ []) →
+    CurInv m cur lines → (∀ ll ∈ gacc, ll.lines ≠ []) →
     fLoop s cur lines (cpass n ls) = .ok lls →
     (groupAux gacc lls).map nview = refNodesAux n (countedOf gacc ++ lines) ls r := by
   induction ls with
   | nil =>
-    intro n s m r p cur lines gacc lls hR _ _ h _ _ hci hg hf
+    intro n s m r cur lines gacc lls hR _ _ h _ hci hg hf
     simp only [refLines] at h
     split at h
     · rename_i hm
       simp only [Option.some.injEq] at h; subst h
       simp only [beq_iff_eq] at hm; subst hm
-      rcases hci with ⟨_, ho, hl, _⟩ | ⟨_, _, _, hne⟩
+      rcases hci with ⟨ho, hl⟩ | ⟨_, _, hne⟩
       · subst hl
         simp only [cpass, fLoop] at hf
         split at hf
@@ -350,13 +191,13 @@ theorem run_groups (ls : List (List Char)) : ∀ (n : Nat) (s : FSt) (m : RF) (r
       · exact absurd rfl hne
     · cases h
   | cons l ls ih =>
-    intro n s m r p cur lines gacc lls hR hm hok h hk hh hci hg hf
+    intro n s m r cur lines gacc lls hR hm hok h hk hci hg hf
     have hl : LineOK l := hok l (by simp)
     have hok' : ∀ l' ∈ ls, LineOK l' := fun l' h' => hok l' (by simp [h'])
     simp only [refLines] at h
     simp only [cpass] at hf
     by_cases hd : isDirectiveLine l = true
-    · -- directive line
+    · -- `#` line
       simp only [hd, if_true] at h
       split at h
       · rename_i hmc
@@ -373,18 +214,16 @@ theorem run_groups (ls : List (List Char)) : ∀ (n : Nat) (s : FSt) (m : RF) (r
           simp only [e1, hnb, Bool.false_eq_true, if_false, List.singleton_append] at hf
           obtain ⟨out, ho, hlls⟩ := fLoop_dir s cur lines ⟨[n + 1], ob.parts⟩ _ lls e2 hf
           have hpaste := dLine_dir_paste l hd hl ob e1
-          rcases hci with ⟨_, hcur, hlines, _⟩ | ⟨_, _, _, hne⟩
+          rcases hci with ⟨hcur, hlines⟩ | ⟨_, _, hne⟩
           · subst hlines
             rw [emitLL_onlySp cur [] hcur] at hlls
             simp only [List.nil_append] at hlls
             subst hlls
-            have hh' : hashHeadAux (n + 1) .code true ls = [] := by
-              simpa only [hashHeadAux, hd, if_true] using hh
             cases hpl : isPasteLine l with
             | false =>
               rw [hpl] at hpaste
-              have i1 := ih (n + 1) s .code r' true {} [] [] out hR rfl hok' hr
-                (fun x hx => hk x (by simp [hx])) hh' (curInv_init _ (Or.inl rfl)) (by simp) ho
+              have i1 := ih (n + 1) s .code r' {} [] [] out hR rfl hok' hr
+                (fun x hx => hk x (by simp [hx])) (curInv_init _) (by simp) ho
               rw [groupAux_dir gacc _ _ out hg hpaste, i1]
               simp only [refNodesAux, hd, hpl, Bool.not_false, Bool.and_self, if_true, List.append_nil, countedOf,
                 List.flatMap_nil]
@@ -392,8 +231,8 @@ theorem run_groups (ls : List (List Char)) : ∀ (n : Nat) (s : FSt) (m : RF) (r
               -- first token `##`: the line is counted text of the surrounding run
               rw [hpl] at hpaste
               rw [groupAux_paste gacc _ out hpaste]
-              refine (ih (n + 1) s .code r' true {} [] _ out hR rfl hok' hr
-                (fun x hx => hk x (by simp [hx])) hh' (curInv_init _ (Or.inl rfl)) ?_ ho).trans ?_
+              refine (ih (n + 1) s .code r' {} [] _ out hR rfl hok' hr
+                (fun x hx => hk x (by simp [hx])) (curInv_init _) ?_ ho).trans ?_
               · intro ll hll
                 simp only [List.mem_append, List.mem_singleton] at hll
                 rcases hll with hll | hll
@@ -415,8 +254,6 @@ theorem run_groups (ls : List (List Char)) : ∀ (n : Nat) (s : FSt) (m : RF) (r
           simp only [hr, Option.map_some, Option.some.injEq] at h; subst h
           have hk' : ∀ x ∈ r', x.2 = false := fun x hx => hk x (by simp [hx])
           have hk0 : rl.k = false := hk (rl.counted, rl.k) (by simp)
-          simp only [hashHeadAux, hd', Bool.false_eq_true, if_false, hrl, List.append_eq_nil_iff] at hh
-          obtain ⟨hbad, hh'⟩ := hh
           have e1 := dLine_code l hd' hl
           have hbl := code_blank_iff l {} onlySp_empty
           have hparts := collapse_eq l
@@ -429,56 +266,36 @@ theorem run_groups (ls : List (List Char)) : ∀ (n : Nat) (s : FSt) (m : RF) (r
             have hrl' := rline_blank m l rl hm hbl.symm hrl
             subst hrl'
             simp only [hb, if_true, List.nil_append] at hf
-            have hp : (m == RF.code || (p && !false)) = p := by
-              rcases hci with ⟨hp, _⟩ | ⟨hp, _, _, hne⟩
-              · subst hp; simp
-              · subst hp
-                have : (m == RF.code) = false := by simpa using hne
-                simp [this]
-            simp only at hh'
-            rw [hp] at hh'
-            simpa using ih (n + 1) s m r' p cur lines gacc lls hR hm hok' hr hk' hh' hci hg hf
+            simpa using ih (n + 1) s m r' cur lines gacc lls hR hm hok' hr hk' hci hg hf
           | false =>
             have hnd : isDirText (collapse l) = false := collapse_notdir l hd'
             have hrc := rline_collapse m l rl hrl
             obtain ⟨l1, l2⟩ := line_sim s m (collapse l) rl hR hrc
             have l2 := l2 hk0
             have hns := rline_lineStart m l rl hrl
+            obtain ⟨g1, g2⟩ := line_sim_only s m (collapse l) rl hR hrc hk0
             simp only [hb, Bool.false_eq_true, if_false, List.singleton_append, hparts] at hf
             -- the open logical line after this physical line
             have hpost :
-                ((p && !rl.counted) = true ∧ (cur.join (procLine s (collapse l)).2).OnlySp ∧
-                  (if (procLine s (collapse l)).2.blank then lines else lines ++ [n + 1]) = [] ∧
-                  (rl.next = .code ∨ rl.next = .start .top)) ∨
-                ((p && !rl.counted) = false ∧ HeadOK (cur.join (procLine s (collapse l)).2) ∧
+                ((cur.join (procLine s (collapse l)).2).OnlySp ∧
+                  (if (procLine s (collapse l)).2.blank then lines else lines ++ [n + 1]) = []) ∨
+                ((cur.join (procLine s (collapse l)).2).blank = false ∧
                   (if (procLine s (collapse l)).2.blank then lines else lines ++ [n + 1]) ≠ []) := by
-              rcases hci with ⟨hp, hcur, hlines, hmm⟩ | ⟨hp, hcur, hlines, hne⟩
-              · subst hp; subst hlines
-                have hdd : m = .code → isDirectiveLine (collapse l) = false := fun _ => by
-                  rw [isDirectiveLine_collapse]; exact hd'
-                have hcc : m = .start .top → contHead (collapse l) ≠ some '#' := by
-                  intro hms
-                  rw [contHead_collapse]
-                  intro hc
-                  have : (m == RF.start Ctx.top && true && contHead l == some '#') = true := by
-                    simp [hms, hc]
-                  rw [this] at hbad
-                  simp at hbad
-                obtain ⟨g1, g2⟩ := line_head s m (collapse l) rl hR hrc hk0 hdd hcc hmm
+              rcases hci with ⟨hcur, hlines⟩ | ⟨hcur, hlines, hne⟩
+              · subst hlines
                 cases hcnt : rl.counted with
                 | false =>
                   have hbo := g1 hcnt
                   left
-                  refine ⟨by simp, onlySp_join_onlySp cur _ hcur hbo, ?_, unc_topish m l rl hmm hrl hcnt⟩
+                  refine ⟨onlySp_join_onlySp cur _ hcur hbo, ?_⟩
                   simp [blank_of_onlySp _ hbo]
                 | true =>
                   have hbo := g2 hcnt
                   right
-                  refine ⟨by simp, onlySp_join_headOK cur _ hcur hbo, ?_⟩
-                  simp [headOK_nonblank _ hbo]
-              · subst hp
-                right
-                refine ⟨by simp, headOK_join_left cur _ hcur, ?_⟩
+                  refine ⟨join_nonblank_right cur _ (wf_of_onlySp cur hcur) hbo, ?_⟩
+                  simp [hbo]
+              · right
+                refine ⟨join_nonblank_left cur _ hcur, ?_⟩
                 split
                 · exact hlines
                 · simp
@@ -490,21 +307,18 @@ theorem run_groups (ls : List (List Char)) : ∀ (n : Nat) (s : FSt) (m : RF) (r
             · have hcfs : (procLine s (collapse l)).1.stack.head? ≠ some .cfs := by
                 intro hc; exact ((rlF_head_cfs _ _ l1 hns).mp hc) hnext
               obtain ⟨out, ho, hlls⟩ := fLoop_end s cur lines ⟨[n + 1], collapse l⟩ _ lls hnd hcfs hf
-              have hh2 : hashHeadAux (n + 1) .code true ls = [] := by simpa [hnext] using hh'
               rw [hnext] at hr l1
               dsimp only at hlls ho
-              rcases hpost with ⟨_, hcur2, hlines2, _⟩ | ⟨_, hcur2, hlines2⟩
+              rcases hpost with ⟨hcur2, hlines2⟩ | ⟨hcur2, hlines2⟩
               · rw [emitLL_onlySp _ _ hcur2] at hlls
                 simp only [List.nil_append] at hlls; rw [hlls]
                 rw [hlines2]
-                exact ih (n + 1) _ .code r' true {} [] gacc out l1 rfl hok' hr hk' hh2
-                  (curInv_init _ (Or.inl rfl)) hg ho
-              · rw [emitLL_headOK _ _ hcur2] at hlls
+                exact ih (n + 1) _ .code r' {} [] gacc out l1 rfl hok' hr hk' (curInv_init _) hg ho
+              · rw [emitLL_nonblank _ _ hcur2] at hlls
                 rw [hlls]
                 simp only [List.singleton_append]
                 rw [groupAux_code _ _ _ rfl]
-                refine (ih (n + 1) _ .code r' true {} [] _ out l1 rfl hok' hr hk' hh2
-                  (curInv_init _ (Or.inl rfl)) ?_ ho).trans ?_
+                refine (ih (n + 1) _ .code r' {} [] _ out l1 rfl hok' hr hk' (curInv_init _) ?_ ho).trans ?_
                 · intro ll hll
                   simp only [List.mem_append, List.mem_singleton] at hll
                   rcases hll with hll | hll
@@ -514,20 +328,18 @@ theorem run_groups (ls : List (List Char)) : ∀ (n : Nat) (s : FSt) (m : RF) (r
             · have hcfs := (rlF_head_cfs _ _ l1 hns).mpr hnext
               rw [fLoop_cont s cur lines ⟨[n + 1], collapse l⟩ _ hnd hcfs] at hf
               dsimp only at hf
-              have hnb : (rl.next == RF.code) = false := by simpa using hnext
-              have hh2 : hashHeadAux (n + 1) rl.next (p && !rl.counted) ls = [] := by simpa [hnb] using hh'
-              refine ih (n + 1) _ rl.next r' (p && !rl.counted) _ _ gacc lls l1 hns hok' hr hk' hh2 ?_ hg hf
-              rcases hpost with ⟨hp2, hcur2, hlines2, htop⟩ | ⟨hp2, hcur2, hlines2⟩
-              · rw [hp2]; exact Or.inl ⟨rfl, hcur2, hlines2, htop⟩
-              · rw [hp2]; exact Or.inr ⟨rfl, hcur2, hlines2, hnext⟩
+              refine ih (n + 1) _ rl.next r' _ _ gacc lls l1 hns hok' hr hk' ?_ hg hf
+              rcases hpost with ⟨hcur2, hlines2⟩ | ⟨hcur2, hlines2⟩
+              · exact Or.inl ⟨hcur2, hlines2⟩
+              · exact Or.inr ⟨hcur2, hlines2, hnext⟩
 
 /-! ## whole texts -/
 
-/-- **grouping = reference (text level)**: for every text the reference accepts, with no line of finding class F-C17-1 and no
-    line of finding class F-C17-2, the nodes `FileParser` builds over `fortran_file_source` are the groups of
+/-- **grouping = reference (text level)**: for every text the reference accepts, with no line of finding class F-C17-1,
+    the nodes `FileParser` builds over `fortran_file_source` are the groups of
     `Spec/FortranNodes.lean` -/
 theorem groups_eq_ref (text : String) (r : List (Bool × Bool)) (h : refText text = some r)
-    (hk : ∀ x ∈ r, x.2 = false) (hh : hashHeadLines text = []) :
+    (hk : ∀ x ∈ r, x.2 = false) :
     ∃ lls, fortranSource text = .ok lls ∧ (group lls).map nview = refNodes text := by
   have h0 := h
   unfold refText at h
@@ -546,8 +358,8 @@ theorem groups_eq_ref (text : String) (r : List (Bool × Bool)) (h : refText tex
     obtain ⟨lls, hl⟩ := fLoop_ok (cpass 0 (textLines text)) {} {} [] (stack_of_rlF_code _ a3)
     refine ⟨lls, ?_, ?_⟩
     · unfold fortranSource dPass; rw [hd]; exact hl
-    · have := run_groups (textLines text) 0 {} .code r true {} [] [] lls init_rlF rfl hlok h hk hh
-        (curInv_init _ (Or.inl rfl)) (by simp) hl
+    · have := run_groups (textLines text) 0 {} .code r {} [] [] lls init_rlF rfl hlok h hk
+        (curInv_init _) (by simp) hl
       unfold refNodes group
       rw [h0]
       simpa [countedOf] using this
